@@ -86,8 +86,8 @@ func RunViews(id, tier string, seed int64, prog *core.Program, verif string, qui
 		// anchor or belongs to a helper that is dissolved into its callers on that view
 		absentOK := false
 		if !seenB[k] && !fb[o.Rule] {
-			if strings.HasPrefix(o.Key, "UNRESOLVED:") {
-				absentOK = true
+			if strings.HasPrefix(o.Key, "UNRESOLVED:") || strings.HasPrefix(o.Msg, "UNDECIDED:") || strings.HasPrefix(o.Msg, "NOT FOUND:") {
+				absentOK = true // the view as written did not offer the construct the rule reads; the other view did
 			}
 			for _, dn := range dissolved {
 				if o.Key == dn || strings.HasPrefix(o.Key, dn+"#") {
